@@ -146,6 +146,10 @@ long wa_failed(void) { return failed; }
 int wa_overflow(void) { return overflow; }
 long wa_live(void) { int i; long k = 0; for (i = 0; i < ntab; ++i) k += tab[i].live; return k; }
 size_t wa_live_bytes(void) { int i; size_t k = 0; for (i = 0; i < ntab; ++i) if (tab[i].live) k += tab[i].n; return k; }
+/* blocks still allocated when the call returned (never released): index among the live ones */
+static int live_idx(int k) { int i; for (i = 0; i < ntab; ++i) if (tab[i].live && k-- == 0) return i; return -1; }
+size_t wa_live_size(int k) { int i = live_idx(k); return i < 0 ? 0 : tab[i].n; }
+const unsigned char* wa_live_data(int k) { int i = live_idx(k); return i < 0 ? 0 : (const unsigned char*)tab[i].p; }
 int wa_nsnaps(void) { return nsnaps; }
 size_t wa_snap_size(int i) { return snaps[i].n; }
 int wa_snap_how(int i) { return snaps[i].how; }
